@@ -543,6 +543,15 @@ func (builder *builder[E]) addConstraintExist(a, b expr.Term[E], k E) (expr.Term
 			if q1 == q3 {
 				// no need to introduce a new constraint;
 				// compute n, the coefficient for the output wire
+				if q2.IsZero() {
+					// the recorded addition does not depend on b (q2 == 0, which forces
+					// q4 == 0 or q1 == 0): n = q3/q1, or no reuse if q1 == 0 as well
+					q1Inv, ok := builder.cs.Inverse(builder.cs.GetCoefficient(int(c.QL)))
+					if !ok {
+						return expr.Term[E]{}, false
+					}
+					return expr.NewTerm(int(c.XC), builder.cs.Mul(q1Inv, qL)), true
+				}
 				q2, ok = builder.cs.Inverse(q2)
 				if !ok {
 					panic("div by 0") // shouldn't happen
